@@ -22,6 +22,10 @@ type Watch struct {
 	// events holds excess events when they are bundled in a stream.PayloadEvents,
 	// until Next is called again.
 	events []stream.Event
+
+	// idx is the index of the most recent event (or snapshot) received from the
+	// subscription. Events at or below it have already been observed.
+	idx uint64
 }
 
 // Next returns the next WatchEvent, blocking until one is available.
@@ -62,7 +66,6 @@ func (w *Watch) nextEvent(ctx context.Context) (*stream.Event, error) {
 		return &event, nil
 	}
 
-	var idx uint64
 	for {
 		e, err := w.sub.Next(ctx)
 		if err != nil {
@@ -88,10 +91,13 @@ func (w *Watch) nextEvent(ctx context.Context) (*stream.Event, error) {
 		//
 		// We should fix this problem at the root, but it's complicated, so for now
 		// we'll work around it.
-		if e.Index <= idx {
+		//
+		// The index must be remembered across calls: the snapshot is delivered by
+		// one call and the events that race with it by later ones.
+		if e.Index <= w.idx {
 			continue
 		}
-		idx = e.Index
+		w.idx = e.Index
 
 		switch t := e.Payload.(type) {
 		case eventPayload:
